@@ -7,7 +7,7 @@
    (one step = one Read+limiter wait, one Write, or the deferred closeBridge).
    External behaviour assumed (hypotheses written into the model, see Model/Pipe.v): x/time/rate's WaitN fails iff
    n > burst or the context is cancelled and otherwise only delays; a Write returns 0 <= n <= len. *)
-From TX Require Import Model.Pipe Model.PipeClose Proofs.Pipe Proofs.PipeTop Proofs.PipeBridge Proofs.PipeLife Proofs.PipeClose Proofs.PipeReattach Proofs.PipeIndep Proofs.SideC02 Gen.C02.
+From TX Require Import Model.Pipe Model.PipeClose Model.PipeLocks Proofs.PipeLocks Proofs.PipeKinds Proofs.Pipe Proofs.PipeTop Proofs.PipeBridge Proofs.PipeLife Proofs.PipeClose Proofs.PipeReattach Proofs.PipeIndep Proofs.SideC02 Gen.C02.
 
 (* ---------------- one direction in isolation: Bridge.CopyWithControl ---------------- *)
 
@@ -288,6 +288,81 @@ Theorem C02_relay_returns_after_failure :
   relay_returned (relay_run HalfCloseAlways 2 EndErr [0; 1; 0; 0; 0; 1; 1]) = true.
 Proof. exact relay_returns_after_failure. Qed.
 Print Assumptions C02_relay_returns_after_failure.
+
+(* ---------------- every kind of read failure; lock order; one direction's end never truncates the other ---------------- *)
+
+(* closure quantified over the error kind: whatever (Timeout, Temporary) pair an end's Read fails with, unless it is BOTH a
+   timeout and temporary (the only retried kind: retry_table, re-proved against the real loop in Proofs/SideC02.v), once that
+   direction has had 2|script|+3 steps the bridge is closed — both ends closed, under every schedule — and nothing scripted
+   after the failure is delivered.  Together with C02_closure_propagates_on_close_or_failure the other end is done two steps later. *)
+Theorem C02_every_failure_kind_closes_source_side :
+  forall lim tmo tmp, tmo && tmp = false ->
+  forall pre data post ws0 rs1 ws1 (sched : list nat),
+  let rs0 := pre ++ {| r_data := data; r_end := rkind_of_error tmo tmp |} :: post in
+  2 * length rs0 + 3 <= count_occ Nat.eq_dec sched 0 ->
+  let s := bridge_run current_variant BatchUpdateThreshold lim rs0 ws0 rs1 ws1 sched in
+  s_closed (fst s) = true /\ prefix (s_out0 (fst s)) (readable (pre ++ [{| r_data := data; r_end := RFatal |}])).
+Proof. exact (failure_kind_closes_0 current_variant BatchUpdateThreshold). Qed.
+Print Assumptions C02_every_failure_kind_closes_source_side.
+
+Theorem C02_every_failure_kind_closes_target_side :
+  forall lim tmo tmp, tmo && tmp = false ->
+  forall pre data post rs0 ws0 ws1 (sched : list nat),
+  let rs1 := pre ++ {| r_data := data; r_end := rkind_of_error tmo tmp |} :: post in
+  2 * length rs1 + 3 <= count_occ Nat.eq_dec sched 1 ->
+  let s := bridge_run current_variant BatchUpdateThreshold lim rs0 ws0 rs1 ws1 sched in
+  s_closed (fst s) = true /\ prefix (s_out1 (fst s)) (readable (pre ++ [{| r_data := data; r_end := RFatal |}])).
+Proof. exact (failure_kind_closes_1 current_variant BatchUpdateThreshold). Qed.
+Print Assumptions C02_every_failure_kind_closes_target_side.
+
+(* the probed retry decision of the real loop IS the model's, and only temporary errors are retried *)
+Theorem C02_retry_decision_matches_code :
+  forallb (fun row => let '(tmo, tmp, retried) := row in implb retried tmp) retry_table = true /\
+  forallb (fun row => let '(tmo, tmp, retried) := row in
+                      Bool.eqb retried (match rkind_of_error tmo tmp with RTimeout => true | _ => false end)) retry_table = true.
+Proof. exact (conj retry_table_only_temporary (proj1 (proj2 retry_table_is_model))). Qed.
+Print Assumptions C02_retry_decision_matches_code.
+
+(* lock order: the acquire/release paths of Bridge.Close, SetSourceConnection, SetTargetConnection and dynamicSourceWriter.Write
+   are read from the syntax tree on every run (the lock_path definitions of Gen/C02.v); none acquires a mutex while holding one, so for ANY mix of
+   any number of such calls and every schedule, no reachable state is a deadlock *)
+Theorem C02_bridge_locks_never_deadlock :
+  forall (mix : list (list lock_op)) (sched : list nat),
+  (forall p, In p mix -> In p bridge_lock_paths) -> ~ deadlock (lk_run mix sched).
+Proof. exact bridge_lock_paths_never_deadlock. Qed.
+Print Assumptions C02_bridge_locks_never_deadlock.
+
+(* the general fact behind it: single-hold paths never deadlock, any number of threads *)
+Theorem C02_single_hold_paths_never_deadlock :
+  forall paths (sched : list nat), forallb single_hold paths = true -> ~ deadlock (lk_run paths sched).
+Proof. exact no_deadlock_single_hold. Qed.
+Print Assumptions C02_single_hold_paths_never_deadlock.
+
+(* refuted: Close holding sourceConnMu across its tunnelConnMu section while SetSourceConnection takes sourceConnMu inside
+   tunnelConnMu — after one step of each, the state is a deadlock and every continuation leaves it unchanged *)
+Theorem C02_inverted_lock_order_deadlocks_refuted :
+  deadlock (lk_run [close_inverted; setsource_inverted] [0; 1]) /\
+  forall sched, lk_run [close_inverted; setsource_inverted] ([0; 1] ++ sched) = lk_run [close_inverted; setsource_inverted] [0; 1].
+Proof. exact inverted_lock_order_deadlocks_refuted. Qed.
+Print Assumptions C02_inverted_lock_order_deadlocks_refuted.
+
+(* one direction's end never truncates the other (relay over a transport without half-close): for every schedule in which
+   the response direction gets its m+1 steps, all m chunks are delivered, un-truncated, and the stream was never closed —
+   wherever the request direction's EOF and its half-close attempt fall *)
+Theorem C02_early_end_never_truncates_other_direction :
+  forall n m (sched : list nat), m + 1 <= count_occ Nat.eq_dec sched 1 ->
+  t_delivered (fst (reqresp_run NoopOnNoCap n m sched)) = m /\
+  nth_error (snd (reqresp_run NoopOnNoCap n m sched)) 1 = Some (TRespDone false) /\
+  t_stream_closed (fst (reqresp_run NoopOnNoCap n m sched)) = false.
+Proof. exact response_never_truncated. Qed.
+Print Assumptions C02_early_end_never_truncates_other_direction.
+
+(* refuted: a half-close that falls back to a full close cuts the response short *)
+Theorem C02_close_on_half_close_truncates_refuted :
+  exists sched, t_delivered (fst (reqresp_run CloseOnNoCap 1 3 sched)) < 3 /\
+                nth_error (snd (reqresp_run CloseOnNoCap 1 3 sched)) 1 = Some (TRespDone true).
+Proof. exact close_on_half_close_truncates_refuted. Qed.
+Print Assumptions C02_close_on_half_close_truncates_refuted.
 
 (* ---------------- (4) the server forgets the tunnel ---------------- *)
 
